@@ -65,7 +65,9 @@ pub fn generate(rng: &mut Rng, focus: &str, thorough: bool) -> Case {
     o.main_len = if rng.chance(0.15) { (3000.0, 9000.0) } else { (12000.0, 30000.0) };
     // sidings that fit and do not fit the trains
     o.siding_len = if rng.chance(0.25) { (400.0, 1200.0) } else { (1800.0, 5000.0) };
-    o.max_restr = 0; // one restriction per link (the only shape est-time construction is calibrated on)
+    // up to two extra restrictions per link in half of the scenarios (until session 3: none - the braking-point
+    // defect 5d8d419 made est-time construction fail on them; a scratch run with them was clean)
+    o.max_restr = if rng.chance(0.5) { 0 } else { rng.usize(1, 2) };
     o.tail_end_only = true;
     o.params = false;
     o.by_type = false;
@@ -74,6 +76,27 @@ pub fn generate(rng: &mut Rng, focus: &str, thorough: bool) -> Case {
     o.lockouts = rng.chance(0.25);
     o.base_speed = (10.0, 26.0);
     let mut links = gen_network(rng, &o);
+    // a limit drop inside the first train length (+ braking distance) of a route makes the train simulation refuse
+    // the scenario at set-up: links a train can start on keep their whole-link limit only
+    {
+        let nf = n_fwd(o.n_sidings);
+        let fl = |i: usize| 2 * nf + 1 - i;
+        let mut starts: Vec<usize> = vec![1, nf];
+        if o.n_sidings >= 1 {
+            starts.extend([2, 3, nf - 2, nf - 1]);
+        }
+        let all: Vec<usize> = starts.iter().flat_map(|i| [*i, fl(*i)]).filter(|i| *i >= 1 && *i < links.len()).collect();
+        for i in all {
+            let len = links[i].length;
+            let whole = |ss: &mut SpeedSet| ss.speed_limits.retain(|r| r.offset_start.value == 0.0 && r.offset_end == len);
+            if let Some(ss) = links[i].speed_set.as_mut() {
+                whole(ss);
+            }
+            for ss in links[i].speed_sets.values_mut() {
+                whole(ss);
+            }
+        }
+    }
     let yard_ends = o.n_sidings >= 2 && rng.chance(if focus == "C15" { 0.35 } else { 0.2 });
     // Sidings (and some mains) made of several links, as in the repository's own networks: only then can a
     // train wait inside a siding, clear of the main, and opposing trains be on the line at the same time.
